@@ -80,7 +80,10 @@ func c02BuildEngine(c c02Case, h http.HandlerFunc) (func(int, http.ResponseWrite
 		}
 		if c.MW > 0 {
 			srv.Use(func(next http.HandlerFunc) http.HandlerFunc {
-				return func(w http.ResponseWriter, r *http.Request) { next(w, r) }
+				return func(w http.ResponseWriter, r *http.Request) {
+					w.Header().Set(c02MwKey(1), "on")
+					next(w, r)
+				}
 			})
 		}
 		for i, r := range c.R {
@@ -92,7 +95,12 @@ func c02BuildEngine(c c02Case, h http.HandlerFunc) (func(int, http.ResponseWrite
 			}
 		}
 		if c.MW > 1 {
-			srv.Use(ToMiddleware(func(next http.Handler) http.Handler { return next }))
+			srv.Use(ToMiddleware(func(next http.Handler) http.Handler {
+				return http.HandlerFunc(func(w http.ResponseWriter, r *http.Request) {
+					w.Header().Set(c02MwKey(2), "on")
+					next.ServeHTTP(w, r)
+				})
+			}))
 		}
 		srvs = append(srvs, srv)
 	}
